@@ -81,7 +81,7 @@ func restResolve(pc protocol.Client, suffix string, ops []*ref.Op, query string)
 }
 
 func checkC06(c *hx.Ctx) {
-	c.Rule("random histories over the operation alphabet (forks, failing deltas, recovers, deactivates, duplicate creates, unpublished operations stamped inside or after the anchored time range) with pairwise distinct coordinates; version times are also spelled with non-UTC offsets, and the REST slice also uses ledger times far ahead of any wall clock; a third of the histories is also queried with a random part of the operations supplied through WithAdditionalOperations; for every cut time T (each operation time, each gap, before the first, after the last) Resolve(H, versionTime=T) must equal Resolve of H restricted to time<=T, and for every canonical reference V Resolve(H, versionId=V) must equal Resolve of the prefix of H (in (time,number) order) ending at V; unknown ids and times before the first operation must fail; a slice also goes through the REST resolve handler (version times, and every anchored reference as version id, also of operations that resolution skips); full resolution models including operation lists are compared; histories produced through REAL batch files and the transaction processor, with an earlier anchor string anchored again later (stores that copy and stores that keep the objects they are handed), and histories submitted through DocumentHandler.ProcessOperation with an unpublished-operation store and a writer that anchors before Add returns: the state recorded after every transaction is what its version id / a time before the next transaction resolves to at the end; non-trivial = cut strictly inside the history")
+	c.Rule("random histories over the operation alphabet (forks, failing deltas, recovers, deactivates, duplicate creates, unpublished operations stamped inside or after the anchored time range) with pairwise distinct coordinates; version times are also spelled with non-UTC offsets, and the REST slice also uses ledger times far ahead of any wall clock; a third of the histories is also queried with a random part of the operations supplied through WithAdditionalOperations; for every cut time T (each operation time, each gap, before the first, after the last) Resolve(H, versionTime=T) must equal Resolve of H restricted to time<=T, and for every canonical reference V Resolve(H, versionId=V) must equal Resolve of the prefix of H (in (time,number) order) ending at V; unknown ids and times before the first operation must fail; a slice also goes through the REST resolve handler (version times, also the second just before an operation spelled with fractional seconds, and every anchored reference as version id, also of operations that resolution skips); full resolution models including operation lists are compared; histories produced through REAL batch files and the transaction processor, with an earlier anchor string anchored again later (stores that copy and stores that keep the objects they are handed), and histories submitted through DocumentHandler.ProcessOperation with an unpublished-operation store and a writer that anchors before Add returns: the state recorded after every transaction is what its version id / a time before the next transaction resolves to at the end; non-trivial = cut strictly inside the history")
 	nCases := c.N(400, 8000)
 	root := c.Rng("cases")
 	seeds := make([]uint64, nCases)
@@ -501,6 +501,7 @@ func checkC06(c *hx.Ctx) {
 	c.Floor("inner_id_cuts", 200)
 	c.Floor("time_before_first_rejected", 50)
 	c.Floor("rest_comparisons", 10)
+	c.Floor("rest_comparisons_fractional_seconds", 20)
 	c.Floor("rest_comparisons_ahead_of_the_wall_clock", 5)
 	c.Floor("version_time_offset_spellings", 200)
 	c.Floor("longform_bad_version_rejected", 20)
